@@ -105,11 +105,15 @@ pub fn cases<T: KS + Send + Sync>(out: &mut Out, rng0: &mut Rng, tier: &Tier, wh
         };
         let colours: Vec<u8> = reads.iter().map(|_| rng.below(3) as u8).collect();
         let mode = (rng.next() & 1) as u8;
-        let tbl = table_of::<T>(&reads, stranded, min_obs, &colours);
+        // C01 is stated for every symmetric table, also one whose extensions lead to ABSENT k-mers (a count-filtered
+        // table before pruning, a shard of a partitioned table): a third of the thresholded C01 tables are left unpruned.
+        // C02 asks for extensions that reference present k-mers only.
+        let loose = which == "C01" && min_obs > 1 && rng.chance(1, 3);
+        let tbl = table_of_opt::<T>(&reads, stranded, min_obs, &colours, !loose);
         if tbl.is_empty() {
             continue;
         }
-        out.nt = is_delicate(&reads, k);
+        out.nt = is_delicate(&reads, k) || loose;
         let spec = PaySpec { mode };
         let hash = boom_of(&tbl);
         // the order the table is iterated in (= ids used by the compressor)
